@@ -144,7 +144,8 @@ func BuildFromRecording(rec *MemoryRecorder, store factstore.ReadOnlyFactStore, 
 		store:   store,
 		opts:    opts,
 		cache:   make(map[uint64][]*ProofNode),
-		onStack: make(map[uint64]bool),
+		onStack: make(map[uint64]int),
+		lowCut:  noCut,
 		ruleIDs: make(map[string]string),
 	}
 	proofs := b.build(goal, 0)
@@ -155,11 +156,16 @@ func BuildFromRecording(rec *MemoryRecorder, store factstore.ReadOnlyFactStore, 
 }
 
 type builder struct {
-	rec     *MemoryRecorder
-	store   factstore.ReadOnlyFactStore
-	opts    Options
-	cache   map[uint64][]*ProofNode
-	onStack map[uint64]bool
+	rec   *MemoryRecorder
+	store factstore.ReadOnlyFactStore
+	opts  Options
+	cache map[uint64][]*ProofNode
+	// onStack maps the goals currently being built to their position on the
+	// stack, to break cycles.
+	onStack map[uint64]int
+	// lowCut is the lowest stack position of a goal at which a cycle was cut
+	// while building the current goal, or noCut.
+	lowCut  int
 	ruleIDs map[string]string // rule.String() -> rule content ID
 }
 
@@ -171,11 +177,23 @@ func (b *builder) build(goal ast.Atom, depth int) []*ProofNode {
 	if cached, ok := b.cache[h]; ok {
 		return cached
 	}
-	if b.onStack[h] {
+	if pos, ok := b.onStack[h]; ok {
+		// Cycle: everything built between that goal and here depends on this cut.
+		if pos < b.lowCut {
+			b.lowCut = pos
+		}
 		return nil
 	}
-	b.onStack[h] = true
+	pos := len(b.onStack)
+	b.onStack[h] = pos
 	defer delete(b.onStack, h)
+	outerCut := b.lowCut
+	b.lowCut = noCut
+	defer func() {
+		if outerCut < b.lowCut {
+			b.lowCut = outerCut
+		}
+	}()
 
 	var proofs []*ProofNode
 	events := b.rec.EventsFor(goal)
@@ -198,7 +216,11 @@ func (b *builder) build(goal ast.Atom, depth int) []*ProofNode {
 		}
 		proofs = append(proofs, p)
 	}
-	b.cache[h] = proofs
+	// A result that was cut short by a cycle through a goal further down the
+	// stack is only valid in this context and must not be memoized.
+	if len(proofs) > 0 || b.lowCut >= pos {
+		b.cache[h] = proofs
+	}
 	return proofs
 }
 
@@ -240,11 +262,23 @@ func (b *builder) buildRule(ev *Event, ruleID string, depth int) *ProofNode {
 				partial = true
 				continue
 			}
+			outer := b.lowCut
+			b.lowCut = noCut
 			sub := b.build(fact, depth+1)
+			cut := b.lowCut != noCut
+			if outer < b.lowCut {
+				b.lowCut = outer
+			}
 			if len(sub) == 0 {
+				if cut {
+					// The premise is (transitively) being built already: this
+					// derivation is circular here and proves nothing.
+					return nil
+				}
 				partial = true
 				continue
 			}
+			partial = partial || sub[0].Partial
 			premiseProofs = append(premiseProofs, sub[0])
 		case ast.NegAtom:
 			// Closed-world absence check.
